@@ -11,14 +11,22 @@ RULE = ("models = behaviours of spec/Pep.tla built with the real DSL and solved 
 
 def select(t, c):
     step, prop, name, detail = c
+    if prop == "ALL":
+        return sc.crash(t, c, PID, 'cvxpy')
     if prop != "C02" or step != 1:
         return None
     o = t["solves"][0]
     what = name
+    sig = "C02|%s|%s" % (name.split(":")[0], o["opts"]["heur"])
+    if name.startswith("object-built-after-a-new-leaf-point"):
+        return "C02|" + name.replace(":", "|", 1), "first solve %s: %s" % (sc.solvestr(o), name)
     if name.startswith("held-object-has-no-value") or name.startswith("derived-"):
         h = o["held"][detail - 1]
         what = "%s (held object '%s')" % (name, h["name"])
-    sig = "C02|%s|%s" % (name.split(":")[0], o["opts"]["heur"])
+        if h["name"].startswith("postleaf_"):
+            sig = "C02|object-built-after-a-new-leaf-point|%s" % name.split(":", 1)[-1]
+        elif h["name"].startswith("post_"):
+            sig = "C02|object-built-after-the-solve|%s" % name.split(":")[0]
     return sig, "first solve %s: %s" % (sc.solvestr(o), what)
 
 
